@@ -124,7 +124,8 @@ def r7(repo, res):
     dbs = {"no structural allele": (plain, False),
            "deletion allele": (dict(plain, **{"G*5": {"mutations": [["G", "deletion"]]}}), True),
            "left fusion": (dict(plain, **{"G*13": {"mutations": [["GP", "e2-"]]}}), True),
-           "right fusion": (dict(plain, **{"G*36": {"mutations": [["GP", "e2+"]]}}), True)}
+           "right fusion": (dict(plain, **{"G*36": {"mutations": [["GP", "e2+"]]}}), True),
+           "partial deletion only": (dict(plain, **{"G*7": {"mutations": [["G", "deletion:e1"]]}}), True)}
     rows = {}
     try:
         ld = c09.Loader(repo)
